@@ -136,6 +136,23 @@ class LenSigCollector(SigCollector):
         return iter(self.records)
 
 
+class RebindSigCollector(SigCollector):
+    """The same records, but the collector REBINDS its list on every collection (records = records + [...], as a rolling
+    window or a periodic summary would): what counts is what the collector holds when the execution ends."""
+
+    def collect(self):
+        m = self.model
+        t = m.systems.timestep
+        m.entry["ticks"].append([self.id, t, m.is_running()])
+        self.records = self.records + [(m.sig, self.id, t)]
+
+
+def collector_class():
+    if CONFIG.get("rebinding_collectors"):
+        return RebindSigCollector
+    return LenSigCollector if CONFIG.get("falsy_collectors") else SigCollector
+
+
 # parameter names a user's model may well have, and which the batching code uses for arguments of its own
 SPECIAL_NAMES = ["max_timesteps", "model_cls", "collectors", "processes", "repetitions", "parameters", "mode", "kwargs", "run",
                  "model", "score_func", "timesteps"]
@@ -166,7 +183,7 @@ class BatchModel(Model):
         self.systems.add_system(Stopper(self))
         self.systems.add_system(Work(self))
         for name, freq in CONFIG.get("collectors_defined", [["col0", 1], ["col1", 2], ["col2", 1]]):
-            self.systems.add_system((LenSigCollector if CONFIG.get("falsy_collectors") else SigCollector)(name, self, frequency=freq))
+            self.systems.add_system(collector_class()(name, self, frequency=freq))
 
 
 def expected_records(sig, name, freq, max_ts):
